@@ -12,43 +12,32 @@ It fails for headers containing an unsatisfiable element (findings unsatisfiable
   * `parsePieces_exact` / `parseRange_exact` (the `_partial` form of range_response_exact: hypothesis = every element
     satisfiable, i.e. exactly the inputs of the open findings excluded): a grammatical header whose elements are all
     satisfiable is parsed to exactly the list of denoted ranges, in order;
+  * `range_response_conforms_partial` (the FINAL step): for every grammatical header, size < 2^62 and content, the model's
+    answer — through `processRange`'s choice ignored-range/single/multipart/416 and `respond`'s bytes — satisfies the spec
+    judge `conforms (expected …)`, under the decidable hypothesis `outsideOpenFindings` = every element satisfiable, or
+    no element satisfiable and one of them beyond the size (⇒ 416); excluded are exactly the inputs of the open findings
+    (an element with first-byte-pos = size or suffix 0 / empty content without a rejected one: empty 206; a rejected
+    element next to a satisfiable one: 416 for the whole header; `bytes=--5` is outside the grammar);
+    `range_judge_passes_partial`: under the same hypothesis the complete judge `rangeJudge` passes on the model's answer;
   * `answer_bytes_exact`: whatever the header, a 206 part with a positive length carries exactly the bytes its
     Content-Range names when that range lies inside the content, and a 200 carries everything.
 -/
 import SwV.Model.C32
 import SwV.Spec.C32
 import SwV.Gen.C32
+import SwV.Lemmas.C32
 namespace SwV.Props.C32
 open SwV.Model.C32 SwV.Spec.C32
 
-theorem wrap64_id (x : Int) (h0 : -(2 ^ 63) ≤ x) (h1 : x < 2 ^ 63) : wrap64 x = x := by
-  unfold wrap64; omega
+theorem wrap64_id (x : Int) (h0 : -(2 ^ 63) ≤ x) (h1 : x < 2 ^ 63) : wrap64 x = x :=
+  SwV.Lemmas.C32.wrap64_id x h0 h1
 
-theorem isDigit_not_sign (c : Char) (h : isDigit c = true) : c ≠ '+' ∧ c ≠ '-' := by
-  constructor <;> (intro e; subst e; revert h; decide)
+theorem isDigit_not_sign (c : Char) (h : isDigit c = true) : c ≠ '+' ∧ c ≠ '-' :=
+  SwV.Lemmas.C32.isDigit_not_sign c h
 
 /-- plain digits are read as themselves by the ParseInt model -/
-theorem parseInt64_number (s : List Char) (v : Nat) (h : number s = some v) : parseInt64 s = some (v : Int) ∧ v < 2 ^ 63 := by
-  unfold number at h
-  cases hd : digitsVal s with
-  | none => simp [hd] at h
-  | some w =>
-    simp only [hd] at h
-    by_cases hw : w < 2 ^ 63
-    · simp only [hw, if_true, Option.some.injEq] at h
-      subst h
-      refine ⟨?_, hw⟩
-      cases s with
-      | nil => simp [digitsVal] at hd
-      | cons c r =>
-        have hc : isDigit c = true := by
-          simp only [digitsVal, digitsAcc] at hd
-          by_cases hcd : isDigit c = true
-          · exact hcd
-          · simp [hcd] at hd
-        obtain ⟨h1, h2⟩ := isDigit_not_sign c hc
-        simp [parseInt64, h1, h2, posOf, hd, hw]
-    · simp [hw] at h
+theorem parseInt64_number (s : List Char) (v : Nat) (h : number s = some v) : parseInt64 s = some (v : Int) ∧ v < 2 ^ 63 :=
+  SwV.Lemmas.C32.parseInt64_number s v h
 
 /-- MAIN numeric core: a grammatical element that is satisfiable for a representation of N bytes is parsed to exactly
     the start and length it denotes -/
@@ -198,6 +187,57 @@ theorem range_response_exact_partial (h : List Char) (N : Nat) (hN : N < 2 ^ 62)
     | some rest =>
       simp only [hp] at hd ⊢
       exact parsePieces_exact N hN _ specs hd hsat
+
+/-- the inputs outside the open findings: every element satisfiable, or nothing satisfiable and an element that
+    `parseRange` rejects (first-byte-pos beyond the size) -/
+def outsideOpenFindings (specs : List RSpec) (N : Nat) : Bool :=
+  specs.all (fun sp => (satisfy N sp).isSome) ||
+    (specs.any (SwV.Lemmas.C32.beyond N) && specs.all (fun sp => (satisfy N sp).isNone))
+
+/-- FINAL STEP (`range_response_exact` down to the spec's judgement, partial: hypothesis = outside the open findings):
+    for every grammatical header, every content below 2^62 bytes, the answer of the model — `processRange`'s choice between
+    ignoring the header (no element / oversized sum ⇒ everything), a single 206, multipart, 416, and `respond`'s bytes —
+    conforms to what the specification expects.
+    FALSE without the hypothesis: `start_eq_size_witness`, `one_unsatisfiable_witness`, `not_conforming_witnesses`. -/
+theorem range_response_conforms_partial (h : List Char) (R : List Nat) (specs : List RSpec) (hN : R.length < 2 ^ 62)
+    (hd : denote h = some specs) (hx : outsideOpenFindings specs R.length = true) :
+    conforms (expected specs R.length) R (respond h R) = true := by
+  simp only [outsideOpenFindings, Bool.or_eq_true, Bool.and_eq_true, List.all_eq_true] at hx
+  rcases hx with hsat | ⟨hb, hnone⟩
+  · exact SwV.Lemmas.C32.respond_conforms_of_parse h R specs hN (SwV.Lemmas.C32.denote_nil_iff h specs hd) hsat
+      (range_response_exact_partial h R.length hN specs hd hsat)
+  · exact SwV.Lemmas.C32.respond_conforms_unsat h R specs hd hb
+      (fun sp hsp => by simpa using hnone sp hsp)
+
+/-- … and therefore the COMPLETE judge the driver runs over the implementation's answers (`rangeJudge`: a 200 carries
+    everything, no empty/negative range, bytes = what Content-Range names, answer = expectation) passes on the model's
+    answer: with zero DIFF in the correspondence check, judge verdicts on such inputs are verdicts on real differences -/
+theorem range_judge_passes_partial (h : List Char) (R : List Nat) (specs : List RSpec) (hN : R.length < 2 ^ 62)
+    (hd : denote h = some specs) (hx : outsideOpenFindings specs R.length = true) :
+    rangeJudge h R (respond h R) = none :=
+  SwV.Lemmas.C32.rangeJudge_none_of_conforms h R specs _ hd (range_response_conforms_partial h R specs hN hd hx)
+
+example : rangeJudge "bytes=0-0, -1".toList [7, 8, 9] (respond "bytes=0-0, -1".toList [7, 8, 9]) = none := by decide
+
+-- non-vacuity: a single range, a multipart answer, an oversized sum, a 416, the absent header
+example : denote "bytes=1-2".toList = some [.fromTo 1 2] ∧ outsideOpenFindings [.fromTo 1 2] 3 = true ∧
+    respond "bytes=1-2".toList [7, 8, 9] = .single ⟨1, 2⟩ [8, 9] := by decide
+example : denote "bytes=0-0, -1".toList = some [.fromTo 0 0, .suffix 1] ∧ outsideOpenFindings [.fromTo 0 0, .suffix 1] 3 = true ∧
+    respond "bytes=0-0, -1".toList [7, 8, 9] = .multi [(⟨0, 1⟩, [7]), (⟨2, 1⟩, [9])] := by decide
+example : outsideOpenFindings [.from 0, .from 1] 3 = true ∧ respond "bytes=0-,1-".toList [7, 8, 9] = .full [7, 8, 9] := by decide
+example : denote "bytes=5-6,4-".toList = some [.fromTo 5 6, .from 4] ∧ outsideOpenFindings [.fromTo 5 6, .from 4] 3 = true ∧
+    respond "bytes=5-6,4-".toList [7, 8, 9] = .unsat := by decide
+example : denote [] = some [] ∧ outsideOpenFindings [] 3 = true := by decide
+
+/-- the hypothesis is needed: on the inputs of the open findings the model's (= the code's) answer does not conform -/
+theorem not_conforming_witnesses :
+    (outsideOpenFindings [.from 3] 3 = false ∧
+      conforms (expected [.from 3] 3) [1, 2, 3] (respond "bytes=3-".toList [1, 2, 3]) = false) ∧
+    (outsideOpenFindings [.suffix 0] 3 = false ∧
+      conforms (expected [.suffix 0] 3) [1, 2, 3] (respond "bytes=-0".toList [1, 2, 3]) = false) ∧
+    (outsideOpenFindings [.fromTo 0 1, .fromTo 5 6] 3 = false ∧
+      conforms (expected [.fromTo 0 1, .fromTo 5 6] 3) [1, 2, 3] (respond "bytes=0-1,5-6".toList [1, 2, 3]) = false) ∧
+    denote "bytes=--5".toList = none := by decide
 
 /-- whatever the header: the bytes of an answer are exactly what its status line and Content-Range announce -/
 theorem answer_bytes_exact (h : List Char) (R : List Nat) :
